@@ -324,7 +324,7 @@ impl Prop for C18 {
     fn n_cases(&self, tier: Tier) -> u64 {
         match tier {
             Tier::Quick => 2600,
-            Tier::Thorough => 40000,
+            Tier::Thorough => 30000,
         }
     }
 
@@ -337,7 +337,7 @@ impl Prop for C18 {
         let thorough = tier == Tier::Thorough;
         let work = match rng.below(10) {
             0..=5 => {
-                let big = thorough && rng.chance(1, 12);
+                let big = thorough && rng.chance(1, 60);
                 let p = CallSetParams {
                     allow_ploidy: rng.chance(1, 10),
                     ..CallSetParams::standard(if big { 40 } else { 8 }, if big { 3000 } else { 12 })
@@ -399,7 +399,16 @@ impl Prop for C18 {
         };
         let boundaries = work_bytes(&work).map(|(_, b)| b).unwrap_or_default();
         let is_write = matches!(work, Work::Write { .. });
-        let sweep_cap = if thorough { 2048 } else { 600 };
+        // sweeps over large inputs are kept narrow: one execution parses the whole input
+        let sweep_cap = if len > 100_000 {
+            64
+        } else if len > 20_000 {
+            256
+        } else if thorough {
+            2048
+        } else {
+            600
+        };
         let mode = match rng.below(10) {
             0..=2 if !is_write && len <= 300_000 => {
                 // inputs longer than the sweep bound: the window of first-chunk lengths moves with
